@@ -23,6 +23,7 @@ POPS = {
     'matrix1x3+plain': (('M', 'G3', 'L2', 'matrix', 0, 1, 3), ('A', 'G1', 'L1', 'plain')),
     'mixed': (('A', 'G1', 'L1', 'plain'), ('Z', 'G2', 'L2', 'multizone', 2), ('M', 'G3', 'L2', 'matrix', 0, 2, 2)),
     'odd-names': (("it's # {x} [y] end", 'G1', 'L1', 'plain'), ('set all', 'G1', 'L1', 'plain')),
+    'format-names': (('Shelf {TV}', 'G2', 'L1', 'multizone', 2), ('{}', 'G3', 'L1', 'matrix', 0, 1, 2), ('{0} %s {{1}}', 'G1', 'L1', 'plain'), ('%d', 'G2', 'L1', 'multizone', 1)),
     'backslash-names': (('Porch\\', 'G1', 'L1', 'plain'), ('Porch', 'G1', 'L1', 'plain'), ('a\\b', 'G2', 'L1', 'multizone', 1)),
 }
 THOROUGH_POPS = {
